@@ -35,6 +35,9 @@ CURATED = [
     ("short-chars", [["c", G.arr(G.CHAR, 4), None], ["v", G.U32, None]]),
     ("padded-vs-flat", [["s", G.INNER2, None], ["q", G.U64, None]]),
     ("flat-vs-padded", [["q", G.U64, None], ["s", G.INNER2, None]]),
+    # an anonymous structure with holes declared BEFORE a named member of the same size: the named member is what is dumped
+    ("anon-first-equal-padded", [[None, ["struct", "", [["tag", G.U8, None], ["val", G.U32, None]], True], None], ["raw", G.U64, None]]),
+    ("anon-first-equal-bits", [[None, ["struct", "", [["lo", G.U32, 4], ["hi", G.U32, 4]], True], None], ["raw", G.U32, None]]),
     ("anon-largest", [["tag", G.U8, None], [None, ["struct", "", [["lo", G.U32, None], ["hi", G.U32, None]], True], None]]),
     ("anon-largest-2", [["w", G.U16, None], [None, ["struct", "", [["x", G.U8, None], ["y", G.U8, None], ["z", G.U16, None]], True], None], ["b", G.U8, None]]),
 ]
@@ -61,7 +64,7 @@ def assignables(T, L):
                 walk(prefix + [fname], FT[2], depth + 1)
                 if depth == 0 and FT[0] == "struct":
                     out.append((prefix + [fname], FT))
-            else:
+            elif not bits:   # (bit-fields are not assignment targets here: a misfitting value is not masked, which no statement demands)
                 out.append((prefix + [fname], FT))
     walk([], T[2], 0)
     return out
@@ -143,8 +146,14 @@ def make(case):
     # unchanged tree - the first declared member of maximal size
     padded = set()
     if cfg["align"]:
-        sizes = [L.size_align(f[1])[0] for f in T[2]]
-        first_largest = T[2][sizes.index(max(sizes))]
+        # the member the unchanged writer serialises: the first declared largest *named* member, unless an anonymous structure
+        # member is strictly larger than every named one
+        named = [f for f in T[2] if not (f[0] is None and f[1][0] == "struct")]
+        anon = [f for f in T[2] if f[0] is None and f[1][0] == "struct"]
+        nsz = [L.size_align(f[1])[0] for f in named]
+        first_largest = named[nsz.index(max(nsz))] if named else anon[0]
+        if anon and (not named or L.size_align(anon[0][1])[0] > max(nsz)):
+            first_largest = anon[0]
         _, mmask = enc.encode(first_largest[1], _zero_value(first_largest[1], L))
         padded = {i for i, m in enumerate(mmask) if m != 0xFF}
 
@@ -191,7 +200,8 @@ def make(case):
             u = cls()
             buf = [0] * size
         else:
-            path, LT = next(t for t in targets if len(t[0]) == 1)
+            named_top = {f[0] for f in T[2] if f[0] is not None}   # keyword construction takes the union's own named members
+            path, LT = next(t for t in targets if len(t[0]) == 1 and t[0][0] in named_top)
             lv, rv = sym_value(ctx, LT, L, "k0", member_type(path))
             u = cls(**{path[0]: lv})
             bytes_, mask = enc.encode(LT, rv)
